@@ -357,7 +357,12 @@ var payloads = []string{
 	"-", "--", "-x", "--flag=v", "[", "]", "[1]", "[[a]]", "!", "!!", "^", ",", ".", "..", "/", "/#", "#/", "+", "_", "%", "%%", "<in>", "<!out>", "<stdin>", ">", ">>", "|>",
 	"\\", "\\\\", "\\s", "\\t", "\\n", "\\ ", " ", "  ", "\t", "\n", "\r\n", "\r", "a b", " a", "a ", "'", "\"", "'a b'", "\"a b\"", "(", ")", "(a b)", "$x", "@x", "$", "@", "*", "?", "*.go",
 	"é", "日本", "🙂", "ß", " ", " ", "​",
+	// assignment operators and odd runs of operator characters
+	"+=", "-=", "/=", "*=", ":=", "+=1", "-=1", "/=2", "++", "==", "&&&", "&&&&&", "&&&inj", "a&&&b", "|||", ";;", "===",
 }
+
+// operands that make `cmd <op> <operand>` a valid expression
+var operands = []string{"1", "2 + 3", "1.5", "x", "'s'", "$v", "true"}
 
 var argGen = hgen.HostileString(hgen.StrOpts{MaxParts: 6, Newlines: true, ExtraToks: payloads})
 
@@ -381,6 +386,20 @@ func gen(t *rapid.T) Case {
 	for i := 0; i < n; i++ {
 		a := strings.ToValidUTF8(argGen.Draw(t, "arg"), "")
 		c.Args = append(c.Args, a)
+	}
+	// `cmd += 1`: an assignment-shaped argument vector (the whole line would
+	// be taken as an expression if the operator were not escaped)
+	if rapid.IntRange(0, 7).Draw(t, "assignshape") == 0 {
+		op := rapid.SampledFrom([]string{"=", "+=", "-=", "/=", "*=", ":=", "++", "--"}).Draw(t, "assignop")
+		operand := rapid.SampledFrom(operands).Draw(t, "operand")
+		if rapid.Bool().Draw(t, "glued") {
+			c.Args = append([]string{op + operand}, c.Args...)
+		} else {
+			c.Args = append([]string{op, operand}, c.Args...)
+		}
+		if len(c.Args) > 6 {
+			c.Args = c.Args[:6]
+		}
 	}
 	if behind {
 		// search behind the open known findings: no trigger of an open class
